@@ -71,6 +71,9 @@ func ceiling(s *slip.Scope, f slip.Object, args slip.List, depth int) slip.Value
 
 	switch tn := num.(type) {
 	case slip.Fixnum:
+		if div.(slip.Fixnum) == 0 {
+			slip.DivisionByZeroPanic(s, depth, slip.Symbol("ceiling"), args, "divide by zero")
+		}
 		q = tn / div.(slip.Fixnum)
 		r = tn - q.(slip.Fixnum)*div.(slip.Fixnum)
 		if 0 < div.(slip.Fixnum) {
@@ -91,9 +94,15 @@ func ceiling(s *slip.Scope, f slip.Object, args slip.List, depth int) slip.Value
 		q = slip.Fixnum(math.Ceil(float64(q.(slip.DoubleFloat))))
 		r = tn - slip.DoubleFloat(q.(slip.Fixnum))*div.(slip.DoubleFloat)
 	case *slip.LongFloat:
+		if (*big.Float)(div.(*slip.LongFloat)).Sign() == 0 {
+			slip.DivisionByZeroPanic(s, depth, slip.Symbol("ceiling"), args, "divide by zero")
+		}
 		syncFloatPrec(tn, div.(*slip.LongFloat))
 		var quo big.Float
 		_ = quo.Quo((*big.Float)(tn), (*big.Float)(div.(*slip.LongFloat)))
+		if quo.IsInf() {
+			slip.ArithmeticPanic(s, depth, slip.Symbol("ceiling"), args, "the quotient is infinite")
+		}
 		bi, acc := quo.Int(nil)
 		switch acc {
 		case big.Exact:
